@@ -1,6 +1,6 @@
 import json, sys, os, glob
 sys.argv_ = sys.argv
-exec(open('/tmp/seed/mkprompt.py').read().split("for pid in sys.argv[1:]:")[0])
+exec(open(os.path.join(os.path.dirname(os.path.abspath(__file__)), 'seed_prompt_round1.py')).read().split("for pid in sys.argv[1:]:")[0])
 for pid in sys.argv[1:]:
     p = props[pid]
     prev = []
